@@ -66,6 +66,8 @@ type hist struct {
 	ci     int
 	params icon.Params
 	tail   []map[string]interface{}
+	// every successful setStake of the history per account name (explains unstake slots in witnesses)
+	stakeLog map[string][]string
 }
 
 func (h *hist) witness(o *icon.Obs, extra map[string]interface{}) map[string]interface{} {
@@ -78,6 +80,12 @@ func (h *hist) witness(o *icon.Obs, extra map[string]interface{}) map[string]int
 	}
 	for k, v := range extra {
 		m[k] = v
+		// witnesses about one account carry all successful setStake operations of that account
+		if a, ok := v.(map[string]interface{}); ok && (k == "account" || k == "after") {
+			if name, ok := a["account"].(string); ok {
+				m["owner_setstake_history"] = h.stakeLog[name]
+			}
+		}
 	}
 	return m
 }
@@ -369,7 +377,7 @@ func run(c *ev.Ctx) {
 			c.Count("setup_failed", 1)
 			return
 		}
-		h := &hist{c: c, w: w, ci: ci, params: p}
+		h := &hist{c: c, w: w, ci: ci, params: p, stakeLog: map[string][]string{}}
 		if err := w.FundTreasury(new(big.Int).Mul(big.NewInt(3000), icon.ICX)); err != nil {
 			c.Notef("case %d: %v", ci, err)
 			c.Count("setup_failed", 1)
@@ -474,6 +482,9 @@ func run(c *ev.Ctx) {
 			c.Count("claims_paid", countPositive(blk.Flow.Claimed))
 			for _, op := range ops {
 				c.Count("op_"+op.Kind, 1)
+				if op.OK && op.Kind == "setStake" {
+					h.stakeLog[op.From] = append(h.stakeLog[op.From], fmt.Sprintf("h=%d setStake(%s) [%s]", cur.Height, op.Arg, op.Intent))
+				}
 				if op.OK {
 					c.Count("op_ok_"+op.Kind, 1)
 					switch op.Intent {
